@@ -570,7 +570,9 @@ def plan(tier, seed):
         deep3 = (not q) or root == LOADER_ROOTS[seed % len(LOADER_ROOTS)] or root == DUMPER_ROOTS[seed % len(DUMPER_ROOTS)]
         for i, e in enumerate(evs):
             if e[0] != 'def':
-                jobs.append(('hist', root, i, 3 if deep3 else 2, True, True))
+                # thorough: length 4 for two roots, length 3 for the rest
+                d4 = (not q) and root in ('SafeLoader', 'Dumper')
+                jobs.append(('hist', root, i, 4 if d4 else (3 if deep3 else 2), True, True))
     if q:
         # the full event alphabet at depth 3 for one root, rotated by the seed (all roots at depth 3 in thorough)
         allroots = LOADER_ROOTS + DUMPER_ROOTS
